@@ -1219,7 +1219,11 @@ def _wrap_args(args):
     out = []
     for a in args:
         if isinstance(a, (list, tuple)) and has_sym(a):
-            out.append(sa(a))
+            try:
+                out.append(sa(a))
+            except ValueError:
+                # a sequence of arrays of different lengths (np.concatenate([[1], x, [0]])): wrap each one
+                out.append([sa(e) if isinstance(e, (list, tuple, np.ndarray)) else e for e in a])
         elif is_sym(a):
             out.append(a)
         else:
